@@ -145,7 +145,7 @@ def h_ioworker(ctx, nmsgs, ncalls, plan):
     if op in 'sq' and nxt < nmsgs:
       m = msgs[nxt]; nxt += 1
       if not w.closed: queued.append(m)
-      if w.closed: continue
+      # the client keeps calling send()/send_fast() after the worker was closed by a fatal error: nothing of it may reach the socket
       (w.send if op == 's' else w.send_fast)(m)
     elif op == 'w':
       if not w.closed: w._do_send(loop)
